@@ -121,7 +121,7 @@ def run(ctx):
     nprog = 4000 if thorough else 300
     sx, nrep = [], 0
     for _ in range(nprog):
-        g = progs.Gen(rng.fork(), feat=dict(strs=True, vecs=False, errors=False, refassign=True))
+        g = progs.Gen(rng.fork(), feat=dict(strs=True, vecs=False, errors=False, refassign=True, optbias=rng.chance(1, 2)))
         s, n = add_repeats(rng, g, g.program(rng.range(2, 5)))
         sx.append(s)
         nrep += n
